@@ -530,3 +530,44 @@ Proof.
   unfold fails. destruct (truthy (preact_value fs b i)); simpl; auto.
   destruct (box_predo_from fs b is) as [t r]. simpl in *. exact IH.
 Qed.
+
+(* ---- bx: the three ways of giving `over` build the declared tree ---- *)
+(* [ds] spells every over out (explicit box or None); [ds'] leaves some of them to the default, at places where
+   the current level already is the intended over *)
+Inductive relaxes : option nat -> list (nat * omode) -> list (nat * omode) -> Prop :=
+| rx_nil : forall l, relaxes l [] []
+| rx_same : forall l b m ds ds',
+    m <> MDefault -> relaxes (resolve_over l m) ds ds' -> relaxes l ((b, m) :: ds) ((b, m) :: ds')
+| rx_default : forall l b m ds ds',
+    m <> MDefault -> resolve_over l m = l -> relaxes l ds ds' -> relaxes l ((b, m) :: ds) ((b, MDefault) :: ds').
+
+Lemma relaxes_build : forall l ds ds', relaxes l ds ds' -> build_from l ds' = build_from l ds.
+Proof.
+  intros l ds ds' H. induction H; simpl; auto.
+  - now rewrite IHrelaxes.
+  - rewrite H0. now rewrite IHrelaxes.
+Qed.
+
+Definition intended (m : omode) : option nat := resolve_over None m.
+
+Lemma spelled_build : forall ds l,
+  Forall (fun d => snd d <> MDefault) ds -> build_from l ds = map (fun d => (fst d, intended (snd d))) ds.
+Proof.
+  induction ds as [|[b m] ds IH]; intros l H; simpl; auto.
+  inversion H; subst. simpl in H2. rewrite IH by auto.
+  destruct m; simpl; auto. contradiction.
+Qed.
+
+Theorem bx_builds_declared : forall ds ds',
+  Forall (fun d => snd d <> MDefault) ds -> relaxes None ds ds' ->
+  build ds' = map (fun d => (fst d, intended (snd d))) ds.
+Proof. intros ds ds' F R. unfold build. rewrite (relaxes_build _ _ _ R). now apply spelled_build. Qed.
+
+(* a box declared with over=None resets the level: the next default box is a top-level box *)
+Lemma none_resets_level : forall l ds a b,
+  exists pre, build_from l (ds ++ [(a, MNone); (b, MDefault)]) = pre ++ [(a, None); (b, None)].
+Proof.
+  intros l ds. revert l. induction ds as [|[x m] ds IH]; intros l a b; simpl.
+  - exists []. reflexivity.
+  - destruct (IH (resolve_over l m) a b) as [pre Hp]. rewrite Hp. eexists ((x, resolve_over l m) :: pre). reflexivity.
+Qed.
